@@ -90,21 +90,33 @@ func kindGVK(i int) schema.GroupVersionKind {
 		return schema.GroupVersionKind{Version: "v1", Kind: "Secret"}
 	case 1:
 		return schema.GroupVersionKind{Version: "v1", Kind: "ConfigMap"}
+	case 2:
+		return schema.GroupVersionKind{Group: "verif.package-operator.run", Version: "v1", Kind: "Widget"}
+	case 3: // the same kind as 2 in another API version
+		return schema.GroupVersionKind{Group: "verif.package-operator.run", Version: "v1beta1", Kind: "Widget"}
+	case 4: // cluster-scoped
+		return schema.GroupVersionKind{Group: "verif.package-operator.run", Version: "v1", Kind: "ClusterWidget"}
 	}
 	return schema.GroupVersionKind{Group: "verif.package-operator.run", Version: "v1", Kind: "K" + strconv.Itoa(i)}
 }
 
-func kindObject(i int) client.Object {
+// kindNamespaced: the scope the API (RESTMapper) declares for the kind.
+func kindNamespaced(i int) bool { return i != 4 }
+
+func kindObject(i int) client.Object { return kindObjectNS(i, "ns") }
+
+// kindObjectNS: a sample object of the kind with the given namespace ("" = none).
+func kindObjectNS(i int, ns string) client.Object {
 	switch i {
 	case 0:
-		return &corev1.Secret{ObjectMeta: metav1.ObjectMeta{Name: "x", Namespace: "ns"}}
+		return &corev1.Secret{ObjectMeta: metav1.ObjectMeta{Name: "x", Namespace: ns}}
 	case 1:
-		return &corev1.ConfigMap{ObjectMeta: metav1.ObjectMeta{Name: "x", Namespace: "ns"}}
+		return &corev1.ConfigMap{ObjectMeta: metav1.ObjectMeta{Name: "x", Namespace: ns}}
 	}
 	u := &unstructured.Unstructured{}
 	u.SetGroupVersionKind(kindGVK(i))
 	u.SetName("x")
-	u.SetNamespace("ns")
+	u.SetNamespace(ns)
 	return u
 }
 
